@@ -689,6 +689,13 @@ namespace bloch::update {
                       << std::endl;
             return true;
         }
+        if (!parseSemVer(currentVersion).valid || !parseSemVer(*latest).valid) {
+            // hasLatest() is false for versions it cannot compare; never install on that basis.
+            std::cerr << "Unable to compare the running version (" << currentVersion
+                      << ") with the latest release tag (" << *latest << "); not updating."
+                      << std::endl;
+            return false;
+        }
 
         const auto currentSem = parseSemVer(currentVersion);
         const auto latestSem = parseSemVer(*latest);
